@@ -164,7 +164,7 @@ impl<'a> Tokinizer<'a> {
 
     pub fn add_token_location(&mut self, start: usize, end: usize, token_type: Option<TokenType>, text: String) -> bool {
         for item in self.token_infos.iter() {
-            if (item.start <= start && item.end > start) || (item.start < end && item.end >= end) {
+            if item.start < end && start < item.end {
                 return false
             }
         }
